@@ -6,6 +6,7 @@ import (
 	"crypto/rsa"
 	"encoding/json"
 	"fmt"
+	"math/big"
 
 	"github.com/gmrtd/gmrtd/activeauth"
 	"github.com/gmrtd/gmrtd/document"
@@ -312,6 +313,53 @@ ec:
 			ac := base
 			ac.Mut = "otherkey"
 			do(sec3, ac)
+		}
+	}
+	{
+		// adversarial recovered blocks: the DG15 key is under the attacker's control, so the attacker can make the
+		// recovered message representative F be ANY short byte string (signature = F^d mod n). Every F of length 1..2 and
+		// every 3-byte F starting with 6A: the validator must reject without panicking.
+		sec3b := "RSA: every short recovered block F (attacker-chosen key)"
+		c.SecBound(sec3b, "all F of length 1 and 2 (65 792) and all 3-byte F beginning with 6A (65 536), signature = F^d mod n for a 1024-bit key, 2 challenges")
+		key := rsaKey(1024, 0)
+		dg15b := rsaDG15(key)
+		dg15, err := document.NewDG15(dg15b)
+		if err != nil || dg15 == nil {
+			c.HarnessError("short-F: DG15: %v", err)
+		} else {
+			width := (key.N.BitLen() + 7) / 8
+			tryF := func(f []byte) {
+				sig := new(big.Int).Exp(new(big.Int).SetBytes(f), key.D, key.N).FillBytes(make([]byte, width))
+				for _, ch := range []string{"00", "pt"} {
+					var res *document.ActiveAuthResult
+					pv, _ := vc.Guard(func() { res, _ = activeauth.ValidateActiveAuthSignature(dg15, sig, challenge(ch)) })
+					switch {
+					case pv != nil:
+						c.Outcome(sec3b, "panic")
+						c.Violation(sec3b, "panic/short-recovered-block", fmt.Sprintf("ValidateActiveAuthSignature panics when the signature recovers to F=%x: %v", f, pv), map[string]any{"F": vc.Hex(f), "signature": vc.Hex(sig)}, nil)
+					case res != nil && res.Success:
+						c.Outcome(sec3b, "accepted")
+						c.Violation(sec3b, "invalid-accepted/rsa/short-recovered-block", fmt.Sprintf("signature recovering to F=%x accepted", f), map[string]any{"F": vc.Hex(f)}, nil)
+					default:
+						c.Outcome(sec3b, "rejected")
+					}
+				}
+			}
+			for hi := 0; hi < 256; hi++ {
+				if !c.Mine() {
+					continue
+				}
+				if c.Expired() {
+					c.SecNotExhaustive(sec3b, "deadline")
+					break
+				}
+				tryF([]byte{byte(hi)})
+				for lo := 0; lo < 256; lo++ {
+					tryF([]byte{byte(hi), byte(lo)})
+					tryF([]byte{0x6A, byte(hi), byte(lo)})
+				}
+				c.Distinct(fmt.Sprintf("shortF/%02x", hi))
+			}
 		}
 	}
 plumbing:
